@@ -184,6 +184,9 @@ func (c *Ctx) Violate(what string, witness any) {
 	b, _ := json.MarshalIndent(map[string]any{"property": c.Prop, "seed": c.Seed, "tier": c.Tier, "what": what, "witness": witness}, "", " ")
 	h := sha1.Sum(b)
 	dir := filepath.Join(VerifDir, "evidence", "replays")
+	if d := os.Getenv("QV_EVIDENCE_DIR"); d != "" {
+		dir = filepath.Join(d, "replays")
+	}
 	os.MkdirAll(dir, 0o755)
 	path := filepath.Join(dir, c.Prop+"-"+hex.EncodeToString(h[:6])+".json")
 	os.WriteFile(path, b, 0o644)
@@ -232,8 +235,12 @@ func (c *Ctx) Finish() int {
 		"violations":  len(c.Violations),
 	}
 	b, _ := json.MarshalIndent(ev, "", " ")
-	os.MkdirAll(filepath.Join(VerifDir, "evidence"), 0o755)
-	if err := os.WriteFile(filepath.Join(VerifDir, "evidence", c.Prop+".json"), append(b, '\n'), 0o644); err != nil {
+	evdir := filepath.Join(VerifDir, "evidence")
+	if d := os.Getenv("QV_EVIDENCE_DIR"); d != "" {
+		evdir = d // used by bin/seed-run so that runs against seeded changes do not overwrite the evidence of the real tree
+	}
+	os.MkdirAll(evdir, 0o755)
+	if err := os.WriteFile(filepath.Join(evdir, c.Prop+".json"), append(b, '\n'), 0o644); err != nil {
 		fmt.Fprintf(os.Stderr, "cannot write evidence: %v\n", err)
 		return 2
 	}
